@@ -11,6 +11,7 @@ import QmiModel.Props.C11BigD4
 import QmiModel.Props.C11BigD5
 import QmiModel.Props.C11BigD6
 import QmiModel.Props.C11BigD7
+import QmiModel.Props.C11BigE
 /-!
 # C11 — a stop request always wakes a waiting task
 
@@ -31,6 +32,9 @@ Systems (thread 0 = the task thread, which waits again and again; see `Model/Wak
   `get_next_signal(None)`; the loop task with two stop requests; free mixture + two stop requests + publisher (4.6k
   states).  Their reachable sets are not computed by the kernel but supplied as tables (`Gen/WakeCert.lean`, written by
   the compiled driver on every run) and *checked* chunk by chunk (`Props/C11Big*.lean`, glued by `cert_chunks_sound`)
+* `sysShareN`, `sysShareT` — as `sysRecvN` / `sysRecvT` (the latter with the publisher) plus a **bystander** blocked on the
+  same receiver condition (a plain thread or another task sharing the receiver), which may park before or after the task:
+  conditions keep their waiters in FIFO order and `notify(n)` wakes the `n` oldest only
 * `sysEarly st n` — stop request(s) for a task thread that is not inside `task.run()` (`_state = st`)
 
 What "interleaving" means: every operation on a shared object (lock, condition, event, `_wait_cond` slot) is one step;
@@ -185,15 +189,35 @@ theorem anyTwo_good : ∀ s, Reach sysAnyTwo s → goodWaiter sysAnyTwo s = true
     | 23, _ => exact anyTwo_chunk_23
     | n + 24, h => omega
 
+open QmiModel.Gen.WakeCert in
+theorem shareT_good : ∀ s, Reach sysShareT s → goodWaiter sysShareT s = true := by
+  refine cert_chunks_sound shareT_init ?_
+  intro j hj
+  have hl : certShareT.length = 5 := by decide +kernel
+  rw [hl] at hj
+  match j, hj with
+    | 0, _ => exact shareT_chunk_0
+    | 1, _ => exact shareT_chunk_1
+    | 2, _ => exact shareT_chunk_2
+    | 3, _ => exact shareT_chunk_3
+    | 4, _ => exact shareT_chunk_4
+    | n + 5, h => omega
+
+set_option maxRecDepth 200000 in
+/-- a second waiter on the *same* condition (it parks before or after the task, any interleaving): the stop request must
+    wake the task whatever its position in the condition's FIFO of waiters — `notify()` instead of `notify_all()` in
+    `stop_task` falsifies this obligation -/
+theorem cert_shareN : certB sysShareN (goodWaiter sysShareN) = true := by decide +kernel
+
 /-- the systems with a generic waiting task -/
-def waiterSystems : List Sys := [sysSleep, sysRecvN, sysRecvT, sysSleep2, sysAny, sysTwo, sysAnyTwo]
+def waiterSystems : List Sys := [sysSleep, sysRecvN, sysRecvT, sysSleep2, sysAny, sysTwo, sysAnyTwo, sysShareN, sysShareT]
 
 /-- the systems with the loop task -/
 def loopSystems : List Sys := [sysLoop, sysLoop2]
 
 theorem waiter_good {sys : Sys} (h : sys ∈ waiterSystems) : ∀ s, Reach sys s → goodWaiter sys s = true := by
   simp only [waiterSystems, List.mem_cons, List.not_mem_nil, or_false] at h
-  rcases h with rfl | rfl | rfl | rfl | rfl | rfl | rfl
+  rcases h with rfl | rfl | rfl | rfl | rfl | rfl | rfl | rfl | rfl
   · exact cert_sound cert_sleep
   · exact cert_sound cert_recvN
   · exact cert_sound cert_recvT
@@ -201,6 +225,8 @@ theorem waiter_good {sys : Sys} (h : sys ∈ waiterSystems) : ∀ s, Reach sys s
   · exact any_good
   · exact two_good
   · exact anyTwo_good
+  · exact cert_sound cert_shareN
+  · exact shareT_good
 
 theorem loop_good {sys : Sys} (h : sys ∈ loopSystems) : ∀ s, Reach sys s → goodLoop sys s = true := by
   simp only [loopSystems, List.mem_cons, List.not_mem_nil, or_false] at h
